@@ -436,6 +436,7 @@ func init() {
 				outs map[string][]byte
 			}
 			judge := func(inv c14Inv, n node) (node, bool) {
+				r.Journal(c14Case{History: append(append([]c14Inv{}, n.hist...), inv)})
 				ns, nouts, ok, sig, detail := c14StepOuts(inv, n.st, n.outs, n.hist)
 				hist := append(append([]c14Inv{}, n.hist...), inv)
 				r.Evals.Add(1)
